@@ -45,7 +45,7 @@ CHECKS = {
     },
     "C12": {
         "id": "C12", "pkg": "c12", "test": "TestC12", "level": "fault_enumeration",
-        "runs": {"quick": 96, "thorough": 6000},
+        "runs": {"quick": 160, "thorough": 6000},
         "chunk": 32, "min_chunk": 16, "run_timeout_s": 30, "shrink_allowance_s": 600,
         "selftest": {"quick": 6, "thorough": 24}, "selftest_procs": {"quick": 2, "thorough": 6},
         "rule": "each run draws a skeleton program (functions, func-typed variables, closures, sub-package, defer of closures / functions / natives, recover, explicit panics of string/int/error values, native callbacks; one observable action per line) and runs it fault-free to record the h.Point call sequence (length W); then for EVERY k in 1..W the k-th Point call delivers Stop(E), Fatal(v) and a host panic (kind string/int/error chosen as a pure function of program and k). "
